@@ -45,7 +45,7 @@ def _pairs():
 
 def cases(tier, seed):
     rnd = random.Random(8000 + seed)
-    reps = 1 if tier == "quick" else 6
+    reps = 1 if tier == "quick" else 30
     pairs = _pairs()
     for _ in range(reps):
         for ki, spec in enumerate(KSPECS):
